@@ -15,7 +15,7 @@ from props import c01
 from vlib.common import VERIF, Check, run_model
 
 PID = "C02"
-LOWER_CMDS = ["show version", "show run | include lo0", "show ip route  ", "ping 10.0.0.1 repeat 2", "show  two   blanks", "s", "show log | i x"]
+LOWER_CMDS = ["show vlan 100", "terminal width 511", "show process cpu history aa", "show version", "show run | include lo0", "show ip route  ", "ping 10.0.0.1 repeat 2", "show  two   blanks", "s", "show log | i x"]
 
 
 def observables(sc, res):
